@@ -19,7 +19,7 @@ from lib import core, gen, oracle, denote, graphcap
 
 EXTRACTORS = []
 # Props/C01Lower.lean: correctness of the lowering algorithm of `id` for all descriptions (built and audited with C01)
-EXTRA_PROPS = ["C01Lower"]
+EXTRA_PROPS = ["C01Lower", "C01LowerOps"]
 BACKENDS = [None, "numpy", "numpy.numpylike", "numpy.einsum"]
 
 
